@@ -3,7 +3,7 @@ import glob, hashlib, os, re
 
 LEAN_MODULE = "RemocModel.Props.C08"
 LEAN_EXES = ["table", "wire"]
-HARNESS_BINS = ["mux", "stream"]
+HARNESS_BINS = ["mux", "stream", "wire"]
 THEOREMS = [
     "Remoc.Table.buffer_bounded",
     "Remoc.Table.bufInv_run",
@@ -154,8 +154,31 @@ def run(ctx, replay=None):
                               "# the model's unframe(maxMsgLength + chunk_size) refuses the frame announced in the `sframe` line\n# %s\n%s" % (d, case))
             total += stream_cases
             nontrivial += stream_cases
+    # ---- Hello validation: the C08 theorems assume that an accepted Hello carries chunk_size >= 4, port_receive_buffer >= 4
+    # and connect_queue >= 1 (Wire.CfgValid; with a smaller chunk size Sender::connect computes a batch of 0 ports and never
+    # finishes). The wire harness's boundary sweep decodes every combination of the smallest field values with the real
+    # ExchangedCfg::read; the spec decoder must agree on each.
+    hello_cases = 0
+    if not replay:
+        rc4, err4, trace4 = ctx.harness("wire", [0], out_path=os.path.join(ctx.workdir, "hello.trace"))
+        if rc4 != 0:
+            ctx.violation("wire harness crashed", "wire-harness-crash", err4[-3000:], name="wire-crash.txt", no_input=True)
+        else:
+            rc4, lines4 = ctx.driver("wire", trace4)
+            with open(trace4) as f:
+                hello_cases = sum(1 for l in f if l.startswith("dec "))
+            bad = [l for l in lines4 if l.startswith("DIFF")]
+            if bad:
+                ctx.violation("c08 fails on the real Hello decoder: a Hello whose configuration is below the protocol minimums is "
+                              "not refused (or a valid one is refused): " + bad[0][:200], "c08 hello-validation",
+                              "# real ExchangedCfg::read against the v3 spec decoder (Wire.decode) on the Hello boundary sweep;\n"
+                              "# each line: dec <frame bytes> | <real decoder result>; the driver's verdicts follow\n# %s\n%s"
+                              % ("\n# ".join(bad[:20]), open(trace4).read()))
+            total += hello_cases
+            nontrivial += hello_cases
     ctx.coverage.update({
         "stream_frame_limit_cases": stream_cases,
+        "hello_boundary_cases": hello_cases,
         "evaluations": total,
         "distinct_nontrivial": nontrivial,
         "traces_validated_against_impl": total,
